@@ -5,6 +5,7 @@
 // C17: hardened builds detect double free, overflow and free-list corruption (secure and debug builds only)
 size_t heap_used_sum(mi_heap_t* h, size_t* pages);
 bool g_busy_pub(int slot);
+bool forced_abandon_possible_pub();
 static bool local_plain_small(Block* b) {
   return b && b->prog == T->prog && b->heap >= 0 && H.heaps[b->heap].prog == T->prog && b->align == 0 && b->offset == 0 && !b->odd_origin && b->usable == b->req && b->usable >= 8 && b->usable + 8 <= 8192 && b->filled;
 }
@@ -120,6 +121,12 @@ void oracle_misuse_op(const Op& op) {
     }
     T->misuse_in_progress = false;
     take_error(EB_EFAULT);
+    // with forced abandonment (target_segments_per_thread, mi_collect_reduce) the page of the freed block may have left the heap in the
+    // meantime: the allocator then never reaches the forged link ("once the allocator reaches it"), there is nothing to report yet
+    if (!detected && forced_abandon_possible_pub()) {
+      sched_set_passthrough(true); const bool still_here = mi_heap_contains_block(heap_ptr(mh), p); sched_set_passthrough(false);
+      if (!still_here) { H.ops_noop++; for (Block* nb : tmp) { model_remove(nb); sched_call_begin(); mi_free(nb->p); delete nb; } return; }
+    }
     if (!detected) sim_violation("corruption_undetected", "the overwritten free-list link of freed block %p (forged value 0x%llx) was followed or ignored without a report during %zu allocations of its size class", p, (unsigned long long)forged, limit);
     H.misuse_detected++; probe(PR_misuse_detected);
     if (is_dbg_build()) sim_finish_ok();      // debug-build assertions after a detected error are outside the property
